@@ -29,10 +29,11 @@ class KDCollatorBase:
             # check if default_collate should be called before this collator
             if collator.default_collate_mode == "before" and not called_default_collate:
                 batch = default_collate(batch)
-                if return_ctx:
+                if return_ctx and not removed_ctx_from_batch:
                     batch, ctx = batch
                     assert isinstance(ctx, dict), \
                         "ModeWrapper.return_ctx should be equal to KDComposeCollator.return_ctx"
+                    removed_ctx_from_batch = True
                 called_default_collate = True
 
             # collate ctx if not collated already
@@ -49,6 +50,7 @@ class KDCollatorBase:
             if collator.default_collate_mode == "after":
                 assert not called_default_collate
                 batch = default_collate(batch)
+                called_default_collate = True
 
         if return_ctx:
             return batch, ctx
